@@ -8,11 +8,11 @@ use serde_json::{json, Value};
 
 use super::flows::recv_body_flow;
 use crate::driver::{AnyFlow, ReqCfg, RespBody, RespMsg};
-use crate::engine::{guarded, pattern, Limits, Report, Tier, Violation};
+use crate::engine::{guarded, pattern, show, Limits, Report, Tier, Violation};
 use crate::exch::{ExchCfg, Gate, Menu, ServerMsg};
 use crate::exch_run::{replay_exchange, run_exchanges};
 
-pub const RULE: &str = "E1: for every N in 0..=8 (Content-Length: N; response HTTP/1.0 and 1.1; also with Connection: close on either side, an HTTP/1.0 request, and an ignored Transfer-Encoding on an HTTP/1.0 response; body followed by 3 bytes of a next response) the complete graph over (remaining, consumed, arrived) with 1-byte arrivals and read buffers 0..=N+2; close-delimited streams of 0..=6 bytes with buffers 0..=4, readiness required in every state and the must-close verdict in both successor states. E2: every N in 0..=70000 on a fresh flow: single reads with window length {0,1,N-1,N,N+1,N+3} x buffer {0,1,N-1,N,N+1}, two-step reads through the state 'one byte left', and all steps again in the completed state; large N {2^32-1,2^32+1,2^63,u64::MAX}. distinct = distinct (N class, window class, buffer class, moved class) cells";
+pub const RULE: &str = "E1: for every N in 0..=8 (Content-Length: N; response HTTP/1.0 and 1.1; also with Connection: close on either side, an HTTP/1.0 request, and an ignored Transfer-Encoding on an HTTP/1.0 response; body followed by 3 bytes of a next response) the complete graph over (remaining, consumed, arrived) with 1-byte arrivals and read buffers 0..=N+2; close-delimited streams of 0..=6 bytes with buffers 0..=4, readiness required in every state and the must-close verdict in both successor states. E2: every N in 0..=70000 on a fresh flow: single reads with window length {0,1,N-1,N,N+1,N+3} x buffer {0,1,N-1,N,N+1}, two-step reads through the state 'one byte left', and all steps again in the completed state; large N {2^32-1,2^32+1,2^63,u64::MAX}. Part c (end to end, judged on wire bytes only): request kinds {GET, POST+Expect with the 100 read in time, POST+Expect whose 100 comes late and is skipped in RecvResponse} x N in 0..=8 x every two-window arrival schedule (first window = every prefix of the stream, then everything): the body handed out equals the N bytes after the head and the exchange consumes exactly up to the body's end. distinct = distinct (N class, window class, buffer class, moved class) cells";
 
 fn graph_cfgs() -> Vec<Arc<ExchCfg>> {
     let mut out = Vec::new();
@@ -125,6 +125,137 @@ fn seq(n: u64, steps: &[(usize, usize)], inp: &[u8], out: &mut [u8]) -> Result<S
     Ok(class)
 }
 
+
+/// Part c - end to end, judged against the bytes on the wire only: the body handed out is exactly the
+/// N bytes that follow the head, whatever preceded the head in the exchange (a 100 Continue read in
+/// time, a late one skipped in RecvResponse - in the same window as the head or not) and for every
+/// two-window arrival schedule (first the stream up to `split`, then all of it). The driver trusts
+/// nothing but the counts the library returns.
+fn end_to_end(kind: &str, n: usize, split: usize) -> Result<(), (String, String)> {
+    let h = |e: String| ("C08:harness:end-to-end".to_string(), e);
+    let rq = if kind == "get" { ReqCfg::new("GET", "1.1", "http://a.test/") } else { ReqCfg::new("POST", "1.1", "http://a.test/").orig("content-length", "3").orig("expect", "100-continue") };
+    let mut stream: Vec<u8> = Vec::new();
+    if kind != "get" {
+        stream.extend_from_slice(b"HTTP/1.1 100 Continue\r\n\r\n");
+    }
+    let interim_len = stream.len();
+    stream.extend_from_slice(format!("HTTP/1.1 200 OK\r\nX-Pad:\r\nContent-Length: {}\r\n\r\n", n).as_bytes());
+    let head_end = stream.len();
+    let body = pattern(n);
+    stream.extend_from_slice(&body);
+    stream.extend_from_slice(b"HTTP/1.1 2");
+    let split = split.min(stream.len());
+    let mut avail = split;
+    let mut off = 0usize;
+    let mut sr = rq.build_prepare().map_err(h)?.proceed();
+    let mut buf = vec![0u8; 4096];
+    crate::driver::write_whole_head(&mut sr).map_err(|e| h(format!("head: {}", e)))?;
+    let mut cur = AnyFlow::SendRequest(sr).proceed().map_err(h)?.ok_or(h("cannot leave SendRequest".into()))?;
+    let mut got: Vec<u8> = Vec::new();
+    let mut out = vec![0u8; 64];
+    for _ in 0..400 {
+        cur = match cur {
+            AnyFlow::Await100(mut a) => {
+                if kind == "post-100-in-time" {
+                    // wait for the 100 as long as the flow wants to
+                    while a.can_keep_await_100() {
+                        let c = a.try_read_100(&stream[off..avail]).map_err(|e| h(format!("try_read_100: {:?}", e)))?;
+                        off += c;
+                        if c == 0 {
+                            if avail == stream.len() {
+                                break;
+                            }
+                            avail = stream.len();
+                        }
+                    }
+                }
+                AnyFlow::Await100(a).proceed().map_err(h)?.ok_or(h("await100".into()))?
+            }
+            AnyFlow::SendBody(mut b) => {
+                let mut sent = 0;
+                while sent < 3 {
+                    let (c, _) = b.write(&b"abc"[sent..], &mut buf).map_err(|e| h(format!("body: {:?}", e)))?;
+                    if c == 0 {
+                        return Err(h("request body write makes no progress".into()));
+                    }
+                    sent += c;
+                }
+                b.write(&[], &mut buf).map_err(|e| h(format!("finish: {:?}", e)))?;
+                AnyFlow::SendBody(b).proceed().map_err(h)?.ok_or(h("cannot leave SendBody".into()))?
+            }
+            AnyFlow::RecvResponse(mut r) => {
+                let (c, resp) = r.try_response(&stream[off..avail]).map_err(|e| h(format!("try_response: {:?}", e)))?;
+                off += c;
+                if resp.is_none() {
+                    if c == 0 {
+                        if avail == stream.len() {
+                            return Err(h("complete response not accepted".into()));
+                        }
+                        avail = stream.len();
+                    }
+                    AnyFlow::RecvResponse(r)
+                } else {
+                    AnyFlow::RecvResponse(r).proceed().map_err(h)?.ok_or(h("cannot leave RecvResponse".into()))?
+                }
+            }
+            AnyFlow::RecvBody(mut b) => {
+                if b.can_proceed() {
+                    AnyFlow::RecvBody(b).proceed().map_err(h)?.ok_or(h("cannot leave RecvBody".into()))?
+                } else {
+                    let (c, p) = b.read(&stream[off..avail], &mut out).map_err(|e| ("C08:end-to-end:read-error".to_string(), format!("read failed: {:?}", e)))?;
+                    off += c;
+                    got.extend_from_slice(&out[..p]);
+                    if c == 0 && p == 0 {
+                        if avail == stream.len() {
+                            return Err(("C08:end-to-end:body-never-completes".into(), format!("all {} stream bytes offered, {} consumed, {} of {} body bytes delivered, body not complete", stream.len(), off, got.len(), n)));
+                        }
+                        avail = stream.len();
+                    }
+                    AnyFlow::RecvBody(b)
+                }
+            }
+            AnyFlow::Cleanup(_) | AnyFlow::Redirect(_) => {
+                if got != body {
+                    return Err(("C08:end-to-end:body-differs".into(), format!("the body handed out is {:?} but the {} bytes following the head are {:?}", show(&got[..got.len().min(40)]), n, show(&body[..n.min(40)]))));
+                }
+                if off != head_end + n {
+                    return Err(("C08:end-to-end:consumed-total".into(), format!("the exchange consumed {} bytes but head and body end at {} (interim {} + head {} + body {})", off, head_end + n, interim_len, head_end - interim_len, n)));
+                }
+                return Ok(());
+            }
+            o => return Err(h(format!("unexpected state {}", o.name()))),
+        };
+    }
+    Err(h("driver did not terminate".into()))
+}
+
+const E2E_KINDS: [&str; 3] = ["get", "post-late-100", "post-100-in-time"];
+
+fn run_end_to_end(rep: &mut Report) {
+    let mut cells = 0u64;
+    for kind in E2E_KINDS {
+        for n in 0..=8usize {
+            for split in 0..=(25 + 60 + n + 10) {
+                cells += 1;
+                let r = guarded(|| end_to_end(kind, n, split));
+                let fail = match r {
+                    Ok(Ok(())) => None,
+                    Ok(Err(e)) => Some(e),
+                    Err(p) => Some((format!("C08:panic:{}", crate::engine::panic_site(&p)), p)),
+                };
+                if let Some((key, what)) = fail {
+                    rep.violation(Violation { key, ord: 50 + n as u64, what: format!("{} [request kind {}, N={}, first window = first {} stream bytes]", what, kind, n, split), replay: json!({"kind": "e2e", "request": kind, "n": n, "split": split}) });
+                }
+                rep.distinct_hash(&("e2e", kind, n.min(2), split.min(30)));
+            }
+        }
+    }
+    rep.evaluations += cells;
+    rep.transitions += cells;
+    rep.extra("end_to_end_cells", json!(cells));
+    crate::engine::validate_case(rep, replay, json!({"kind": "e2e", "request": "post-late-100", "n": 5, "split": 30}));
+}
+
 fn sweep_n(n: u64, rep: &mut Report) {
     let nn = n as usize;
     let mut wls = vec![0usize, 1, nn.saturating_sub(1), nn, nn + 1, nn + 3];
@@ -164,6 +295,7 @@ fn sweep_n(n: u64, rep: &mut Report) {
 pub fn run(tier: Tier) -> Report {
     let lim = Limits { max_states: 1_000_000, keep_final_traces: 3, keep_state_traces: 3, check_coreach: true, probe_every: 8, ..Default::default() };
     let mut rep = run_exchanges(graph_cfgs(), &lim, true, |c| c.to_json());
+    run_end_to_end(&mut rep);
     let step = if tier.thorough() { 1 } else { 1 };
     let ns: Vec<u64> = (0..=70_000u64).step_by(step).collect();
     let parts: Vec<Report> = ns
@@ -226,6 +358,7 @@ pub fn replay(v: &Value) -> Result<Option<String>, String> {
             let mut out = vec![0u8; len];
             Ok(seq(n, &steps, &inp, &mut out).err().map(|(k, w)| format!("[{}] {}", k, w)))
         }
+        Some("e2e") => Ok(end_to_end(v["request"].as_str().ok_or("request")?, v["n"].as_u64().ok_or("n")? as usize, v["split"].as_u64().ok_or("split")? as usize).err().map(|(k, w)| format!("[{}] {}", k, w))),
         Some("sweep") => {
             let n: u64 = v["n"].as_str().ok_or("n")?.parse().map_err(|_| "n")?;
             let mut r = Report::new();
